@@ -224,7 +224,7 @@ def r_loader_agreement(P, rep, ctx, rule):
     r2, f2 = ret_of(ts.methods["_jsonschema_path_for"])
     a1 = ts.methods["_schema_path_for"].params[-1]
     a2 = ts.methods["_jsonschema_path_for"].params[-1]
-    rep.check(r1 == [f"f'{{M.METADOR_SCHEMAS_PATH}}/{{to_ep_name({a1}.name, {a1}.version)}}'"] and r2 == [f"f'{{cls._schema_path_for({a2})}}/jsonschema.json'"], rule, ts.qual,
+    rep.check(r1 in ([f"f'{{M.METADOR_SCHEMAS_PATH}}/{{to_ep_name({a1}.name, {a1}.version)}}'"], [f"f'{{M.METADOR_SCHEMAS_PATH}}/{{_ep_name_for({a1})}}'"]) and r2 == [f"f'{{cls._schema_path_for({a2})}}/jsonschema.json'"], rule, ts.qual,
               "schema paths are derived from one helper (ep name below METADOR_SCHEMAS_PATH)", ts.module.relpath, construct="schema path helpers", message="schema path helpers changed shape")
     gi = ts.methods["__getitem__"]
     gf = F(ctx, gi)
